@@ -8,6 +8,7 @@ import (
 	"fmt"
 	"math/rand"
 	"os"
+	"strings"
 	"time"
 
 	"github.com/idena-network/idena-go/blockchain"
@@ -40,7 +41,7 @@ type fixture struct {
 	canon     []*types.Block // canonical blocks produced by the history (index = height-2)
 }
 
-var stateKinds = map[string]int{"empty": 0, "populated": 14, "ceremony": 29, "epoch1": 40}
+var stateKinds = map[string]int{"empty": 0, "populated": 14, "ceremony": 29, "epoch1": 40, "populated+emptyhead": 14, "epoch1+emptyhead": 40}
 
 const nUsers = 12
 
@@ -71,6 +72,16 @@ func newFixture(seed int64, kind string) (*fixture, error) {
 			return nil, fmt.Errorf("history step %d: %v", b, err)
 		}
 		f.canon = append(f.canon, blk)
+	}
+	if strings.HasSuffix(kind, "+emptyhead") {
+		// the head is an EMPTY block (a round without proposal): predecessors without ProposedHeader
+		chainfx.Advance(25 * time.Second)
+		eb := h.N.Chain.GenerateEmptyBlock()
+		if err := h.N.Add(eb); err != nil {
+			return nil, fmt.Errorf("empty block on top: %v", err)
+		}
+		f.canon = append(f.canon, eb)
+		chainfx.Advance(20 * time.Second)
 	}
 	f.attach()
 	return f, nil
